@@ -1047,6 +1047,10 @@ func (p *Parser) parseTernary(conditionNode ast.Node) ast.Node {
 func (p *Parser) parseGroupedExpr() ast.Node {
 	p.nextToken()
 	exp := p.parseExpression(LOWEST)
+	if exp == nil {
+		p.setTokenError(p.curToken, "invalid syntax in grouped expression")
+		return nil
+	}
 	if !p.expectPeek("grouped expression", token.RPAREN) {
 		return nil
 	}
@@ -1443,7 +1447,15 @@ func (p *Parser) parseExprList(end token.Type) []ast.Expression {
 		if err := p.nextToken(); err != nil {
 			return nil
 		}
-		list = append(list, p.parseExpression(LOWEST))
+		item := p.parseExpression(LOWEST)
+		if item == nil {
+			if !p.curTokenIs(token.EOF) {
+				p.setTokenError(p.curToken, "invalid syntax in expression list")
+				return nil
+			}
+			break // the missing end of the list is reported below
+		}
+		list = append(list, item)
 	}
 	for p.peekTokenIs(token.NEWLINE) {
 		if err := p.nextToken(); err != nil {
@@ -1709,10 +1721,18 @@ func (p *Parser) parseMapOrSet() ast.Node {
 	}
 	p.nextToken() // move to the first key
 	firstKey := p.parseExpression(LOWEST)
+	if firstKey == nil {
+		p.setTokenError(p.curToken, "invalid syntax in set expression")
+		return nil
+	}
 	if p.peekTokenIs(token.COLON) { // This is a map
 		p.nextToken() // move to the ":"
 		p.nextToken() // move to the first value
 		firstValue := p.parseExpression(LOWEST)
+		if firstValue == nil {
+			p.setTokenError(p.curToken, "invalid syntax in map expression")
+			return nil
+		}
 		pairs := map[ast.Expression]ast.Expression{firstKey: firstValue}
 		for !p.peekTokenIs(token.RBRACE) {
 			if p.peekTokenIs(token.NEWLINE) {
@@ -1769,6 +1789,10 @@ func (p *Parser) parseMapOrSet() ast.Node {
 				return nil
 			}
 			key := p.parseExpression(LOWEST)
+			if key == nil {
+				p.setTokenError(p.curToken, "invalid syntax in set expression")
+				return nil
+			}
 			items = append(items, key)
 			if !p.peekTokenIs(token.COMMA) {
 				break
@@ -1790,11 +1814,19 @@ func (p *Parser) parseMapOrSet() ast.Node {
 func (p *Parser) parseKeyValue() (ast.Expression, ast.Expression) {
 	p.nextToken()
 	key := p.parseExpression(LOWEST)
+	if key == nil {
+		p.setTokenError(p.curToken, "invalid syntax in map expression")
+		return nil, nil
+	}
 	if !p.expectPeek("hash value", token.COLON) {
 		return nil, nil
 	}
 	p.nextToken()
 	value := p.parseExpression(LOWEST)
+	if value == nil {
+		p.setTokenError(p.curToken, "invalid syntax in map expression")
+		return nil, nil
+	}
 	return key, value
 }
 
